@@ -468,13 +468,43 @@ def rule_propagation(repo, col):
                   'the handler result is returned',
                   'the handler result is dropped (a raise reaction would '
                   'never raise)')
-        # guarded by the kind's own test function applied to the item
+        # guarded by the kind's own test function applied to the item:
+        # either inside `if test(item):` or after `if not test(item):
+        # continue / return`
+        def strip_not(t):
+            neg = False
+            while isinstance(t, ast.UnaryOp) and isinstance(t.op, ast.Not):
+                t = t.operand
+                neg = not neg
+            return t, neg
         guard = None
+        pol_ok = False
+        stmt_of = found
+        while stmt_of in m.parent and not isinstance(stmt_of, ast.stmt):
+            stmt_of = m.parent[stmt_of]
         for a in ast.walk(f):
-            if isinstance(a, ast.If) and any(x is found
-                                             for x in ast.walk(a)):
-                guard = a
-        col.check(guard is not None and isinstance(guard.test, ast.Call),
+            if not isinstance(a, ast.If):
+                continue
+            t, neg = strip_not(a.test)
+            if not isinstance(t, ast.Call):
+                continue
+            inside = any(x is found for b in a.body for x in ast.walk(b))
+            if inside and not neg:
+                guard, pol_ok = a, True
+            elif neg and not inside and a.body and isinstance(
+                    a.body[-1], (ast.Continue, ast.Return, ast.Break)):
+                # the handler follows the early exit in the same block
+                par = m.parent.get(a)
+                blk = None
+                for fld in ('body', 'orelse'):
+                    b = getattr(par, fld, None)
+                    if isinstance(b, list) and a in b:
+                        blk = b
+                if blk is not None and any(
+                        any(x is found for x in ast.walk(st))
+                        for st in blk[blk.index(a) + 1:]):
+                    guard, pol_ok = a, True
+        col.check(guard is not None and pol_ok,
                   rule, ERR, 'ErrorProfile.test', 'guarded-by-test',
                   guard or found, 'reaction only when the kind\'s test '
                   'function holds', 'reaction is not conditional on the '
@@ -485,20 +515,49 @@ def rule_propagation(repo, col):
     assigns = local_assignments(f)
     ok = False
     raise_node = None
+
+    def is_exc_test(t):
+        """(value expr, negated?) for isinstance(v, Exception) tests."""
+        neg = False
+        while isinstance(t, ast.UnaryOp) and isinstance(t.op, ast.Not):
+            t = t.operand
+            neg = not neg
+        if isinstance(t, ast.Call) and call_name(t) == 'isinstance' and \
+                len(t.args) == 2 and dotted(t.args[1]) in (
+                    'Exception', 'BaseException'):
+            return t.args[0], neg
+        return None, neg
+
+    def from_profile(v):
+        src = resolve_local(v, assigns)
+        return isinstance(src, ast.Call) and \
+            dotted(src.func) == '%s.test' % prof
     for n in body_walk(f):
-        if isinstance(n, ast.If) and isinstance(n.test, ast.Call) and \
-                call_name(n.test) == 'isinstance' and \
-                len(n.test.args) == 2 and \
-                dotted(n.test.args[1]) in ('Exception', 'BaseException'):
-            v = n.test.args[0]
+        if not isinstance(n, ast.If):
+            continue
+        v, neg = is_exc_test(n.test)
+        if v is None or not from_profile(v):
+            continue
+        if not neg:
             for b in n.body:
                 if isinstance(b, ast.Raise) and b.exc is not None and \
                         ast.dump(b.exc) == ast.dump(v):
-                    src = resolve_local(v, assigns)
-                    if isinstance(src, ast.Call) and \
-                            dotted(src.func) == '%s.test' % prof:
-                        ok = True
-                        raise_node = b
+                    ok, raise_node = True, b
+        else:
+            # if not isinstance(v, Exception): return v  /  raise v
+            m_ = repo.mod(ERR)
+            par = m_.parent.get(n)
+            blk = getattr(par, 'body', [])
+            exits = n.body and isinstance(n.body[-1], ast.Return)
+            if exits and n in blk:
+                for b in blk[blk.index(n) + 1:]:
+                    if isinstance(b, ast.Raise) and b.exc is not None and \
+                            ast.dump(b.exc) == ast.dump(v):
+                        ok, raise_node = True, b
+            for b in n.orelse:
+                if isinstance(b, ast.Raise) and b.exc is not None and \
+                        ast.dump(b.exc) == ast.dump(v):
+                    ok, raise_node = True, b
     col.check(ok, rule, ERR, 'errcheck', 'raise-iff-exception',
               raise_node or f,
               'the value returned by the profile test is raised iff it is '
